@@ -187,10 +187,19 @@ def run_strings(case):
             except Exception as e:
                 gots = repr(e)
             outcomes.add("ok" if gots is not None else "rej")
-            if gots != exp and len(viols) < 6:
+            if gots != exp and not grey_ok(s, exp, gots) and len(viols) < 6:
                 sig = "period:malformed-accepted" if exp is None else "period:valid-rejected" if gots is None else "period:value"
                 viols.append(util.viol(sig, f"normalize_period({s!r}) -> {gots} expected {exp}", dict(mode="string", s=s)))
     return util.result(evals=n, nontrivial=nt, viol=viols, outcomes=sorted(outcomes), states=n, transitions=n, sample=dict(string="PT1H9S", expected=3609))
+
+
+def grey_ok(s, exp, gots):
+    """Strings that are not in the strict grammar but have exactly one sensible reading (letter case, blanks around the text): the statement
+    does not say whether they are 'malformed'. Rejecting them is fine; accepting them is fine only with that reading's value."""
+    if exp is not None or gots is None:
+        return False
+    lenient = ref_parse(s.strip().upper())
+    return lenient is not None and gots == lenient
 
 
 def spellings_of(S: int):
@@ -252,10 +261,16 @@ def run_spellings(case):
     return util.result(evals=n, nontrivial=nt, viol=viols, outcomes=sorted(kinds), states=n, transitions=n, sample=dict(S=3661, spellings=[str(x) for _, x in spellings_of(3661)[:12]]))
 
 
+# no reading as a duration at all: must be rejected
 MALFORMED = [
-    [], [1], [1, "s", 3], ["1", "s"], [1.5, "s"], [1, 2], [1, "x"], [1, ""], [1, "sec"], [1, "hours"], [None, "s"], [[1], "s"],
-    None, 1.5, "", "1", "60", "PT", "P", "T1S", "pt1s", "PT1s", "PT1S ", " PT1S", "PT-1S", "PT1.5S", "PT1H1H", "PT1S1M", "PT1M1H", "P1S",
-    "PT1D", "PTS", "PTH", "PT 1S", "PT1 S", "1S", "PT1SPT1S", (1, "s"), {"s": 1}, b"PT1S",
+    [], [1], [1, "s", 3], [1, 2], [1, "x"], [1, ""], [None, "s"], [[1], "s"],
+    None, "", "PT", "P", "T1S", "PT1H1H", "PT1S1M", "PT1M1H", "P1S", "PTS", "PTH", "PT 1S", "PT1 S", "1S", "PT1SPT1S", {"s": 1},
+]
+# outside the spellings the statement lists, but with exactly one sensible reading (milliseconds): rejecting is fine, accepting is fine only with that value
+GREY = [
+    (["1", "s"], 1000), ([1.5, "s"], 1500), ([1, "sec"], 1000), ([1, "hours"], 3600000), (1.5, 1500), ("1", 1000), ("60", 60000), ("pt1s", 1000), ("PT1s", 1000),
+    ("PT1S ", 1000), (" PT1S", 1000), ("PT-1S", -1000), ("PT1.5S", 1500), ("PT1D", 86400000), ((1, "s"), 1000), ((2, "m"), 120000), (b"PT1S", 1000),
+    (np.int64(60), 60000), (np.int32(7), 7000),
 ]
 
 
@@ -268,12 +283,22 @@ def run_malformed(case):
         try:
             got = normalize_period(x)
             res = f"accepted -> {got}"
-        except ValueError:
+        except Exception:  # which exception class refuses a malformed period is not part of the statement
             res = None
-        except Exception as e:
-            res = f"raised {type(e).__name__} instead of ValueError: {e}"
         if res is not None:
-            viols.append(util.viol("period:malformed-accepted" if res.startswith("acc") else "period:malformed-wrong-error", f"normalize_period({x!r}) {res}", dict(mode="malformed1", index=i)))
+            viols.append(util.viol("period:malformed-accepted", f"normalize_period({x!r}) {res}", dict(mode="malformed1", index=i)))
+    for i, (x, ms) in enumerate(GREY):
+        n += 1
+        try:
+            got = normalize_period(x)
+        except Exception:
+            continue
+        try:
+            gms = got / np.timedelta64(1, "ms")
+        except Exception as e:
+            gms = repr(e)
+        if gms != ms:
+            viols.append(util.viol("period:lenient-spelling-value", f"normalize_period({x!r}) is accepted and gives {got!r}, its only sensible reading is {ms} ms", dict(mode="malformed1", grey=i)))
     return util.result(evals=n, nontrivial=n, viol=viols[:6], outcomes=["rejected"], states=n, transitions=n, sample=dict(malformed=[repr(x) for x in MALFORMED[:10]]))
 
 
@@ -294,7 +319,7 @@ def run_case(case):
         except Exception as e:
             gots = repr(e)
         sig = "period:malformed-accepted" if exp is None else "period:valid-rejected" if gots is None else "period:value"
-        return util.result(viol=[] if gots == exp else [util.viol(sig, f"normalize_period({s!r}) -> {gots} expected {exp}", case)])
+        return util.result(viol=[] if gots == exp or grey_ok(s, exp, gots) else [util.viol(sig, f"normalize_period({s!r}) -> {gots} expected {exp}", case)])
     if m == "spellings":
         return run_spellings(case)
     if m == "spelling1":
@@ -315,5 +340,5 @@ def run_case(case):
         return run_malformed(case)
     if m == "malformed1":
         r = run_malformed(case)
-        return util.result(viol=[v for v in r["viol"] if v["case"]["index"] == case["index"]])
+        return util.result(viol=[v for v in r["viol"] if v["case"].get("index") == case.get("index") and v["case"].get("grey") == case.get("grey")])
     raise util.HarnessError(case)
